@@ -7,6 +7,8 @@
 package vx
 
 import (
+	"bytes"
+	"encoding/csv"
 	"encoding/json"
 	"fmt"
 	"math"
@@ -310,3 +312,22 @@ func B2I(c bool) int {
 // bits of every hash value lie in `allowed` (a stated bound on the explored
 // collision patterns). No effect natively.
 func ConstrainHash(bits int, allowed ...int) {}
+
+// ModelCSVWriter makes the engine replace encoding/csv.Writer by a recording
+// model for the rest of the path (the quoting layer is then outside the claim).
+func ModelCSVWriter() {}
+
+// RealDigits disables the engine's number-text model for internal/ryu (C16).
+func RealDigits() {}
+
+// CSVRecords returns the records written through the modelled csv.Writer; the
+// native implementation parses the bytes actually written with encoding/csv.
+func CSVRecords(written []byte) [][]string {
+	r := csv.NewReader(bytes.NewReader(written))
+	r.FieldsPerRecord = -1
+	recs, err := r.ReadAll()
+	if err != nil {
+		panic(err)
+	}
+	return recs
+}
